@@ -69,24 +69,34 @@ Definition exc_eqb (a b : exc) : bool :=
   | _, _ => false
   end.
 
-Definition obs_eqb (a b : obs) : bool :=
-  match a, b with
-  | BOk s, BOk t => String.eqb s t
+(** [obs_ok m s]: the observation [s] is what the model [m] predicts.  One deliberate
+    slack: where the model says AttributeError (an enabled [init=True] field whose
+    attribute is unset - the property does not say what repr shows then) any string is
+    accepted as well; the residue is compared in every case. *)
+Definition obs_ok (m s : obs) : bool :=
+  match m, s with
+  | BOk a, BOk b => String.eqb a b
+  | BRaise EAttr, BOk _ => true
   | BRaise e, BRaise f => exc_eqb e f
   | _, _ => false
   end.
 
-Definition entry_eqb (a b : obs * list nat) : bool :=
-  obs_eqb (fst a) (fst b) && list_eqb Nat.eqb (snd a) (snd b).
+Definition entry_ok (m s : obs * list nat) : bool :=
+  obs_ok (fst m) (fst s) && list_eqb Nat.eqb (snd m) (snd s).
 
-Definition check_case (c : case) : bool := list_eqb entry_eqb (model_of c) (c_seen c).
+Fixpoint all2 {A B : Type} (f : A -> B -> bool) (a : list A) (b : list B) : bool :=
+  match a, b with
+  | [], [] => true
+  | x :: a', y :: b' => f x y && all2 f a' b'
+  | _, _ => false
+  end.
 
-Lemma obs_eqb_eq a b : obs_eqb a b = true -> a = b.
-Proof.
-  destruct a as [s|e| |], b as [t|f| |]; cbn; try discriminate.
-  - intros H. apply String.eqb_eq in H. now subst.
-  - destruct e, f; cbn; try discriminate; reflexivity.
-Qed.
+Definition check_case (c : case) : bool := all2 entry_ok (model_of c) (c_seen c).
+
+Definition agrees (m s : obs * list nat) : Prop :=
+  snd s = snd m /\
+  (fst s = fst m /\ ((exists x, fst m = BOk x) \/ (exists e, fst m = BRaise e))
+   \/ (fst m = BRaise EAttr /\ exists x, fst s = BOk x)).
 
 Lemma list_nat_eqb_eq : forall a b, list_eqb Nat.eqb a b = true -> a = b.
 Proof.
@@ -94,17 +104,21 @@ Proof.
   intros H. apply andb_true_iff in H as [H1 H2]. apply Nat.eqb_eq in H1. apply IH in H2. congruence.
 Qed.
 
-Lemma entry_eqb_eq a b : entry_eqb a b = true -> a = b.
+Lemma entry_ok_agrees m s : entry_ok m s = true -> agrees m s.
 Proof.
-  destruct a as [a1 a2], b as [b1 b2]. unfold entry_eqb; cbn. intros H.
-  apply andb_true_iff in H as [H1 H2]. apply obs_eqb_eq in H1. apply list_nat_eqb_eq in H2. congruence.
+  destruct m as [m1 m2], s as [s1 s2]. unfold entry_ok, agrees; cbn. intros H.
+  apply andb_true_iff in H as [H1 H2]. apply list_nat_eqb_eq in H2. split; [congruence|].
+  destruct m1 as [a|e| |], s1 as [b|f| |]; try destruct e; try destruct f; cbn in H1; try discriminate;
+    try (left; split; [reflexivity|]; right; eexists; reflexivity).
+  - apply String.eqb_eq in H1. subst. left. split; [reflexivity|]. left. now exists b.
+  - right. split; [reflexivity|]. now exists b.
 Qed.
 
-Lemma check_case_sound c : check_case c = true -> c_seen c = model_of c.
+Lemma check_case_sound c : check_case c = true -> Forall2 agrees (model_of c) (c_seen c).
 Proof.
   unfold check_case. generalize (model_of c) (c_seen c). intros l.
-  induction l as [|x l IH]; intros l0; destruct l0 as [|y l0]; cbn; try discriminate; [reflexivity|].
-  intros H. apply andb_true_iff in H as [H1 H2]. apply entry_eqb_eq in H1. apply IH in H2. congruence.
+  induction l as [|x l IH]; intros l0; destruct l0 as [|y l0]; cbn; try discriminate; [constructor|].
+  intros H. apply andb_true_iff in H as [H1 H2]. constructor; [now apply entry_ok_agrees | now apply IH].
 Qed.
 
 (** In a threaded case the model's entry for a thread is either "not finished within
